@@ -13,6 +13,19 @@ from .values import (SBool, SClass, SDict, SEnumMember, SExc, SFloat, SFunc, SIn
 
 _HPAIR = None
 _HASH = None
+_DPUT = z3.Function("dput", z3.IntSort(), z3.IntSort(), z3.IntSort(), z3.IntSort())
+EMPTY_DICT_ID = z3.IntVal(-7)
+
+
+def dput(d, k, v):
+    """content identity of a dict after d[k] = v"""
+    return _DPUT(d, k, v)
+
+
+def dput_overwrite_law():
+    """dput(dput(d,k,v1),k,v2) == dput(d,k,v2): a law of finite maps, assumed where the contract asks for it"""
+    d, k, v1, v2 = z3.Ints("dl_d dl_k dl_v1 dl_v2")
+    return z3.ForAll([d, k, v1, v2], _DPUT(_DPUT(d, k, v1), k, v2) == _DPUT(d, k, v2), patterns=[_DPUT(_DPUT(d, k, v1), k, v2)])
 
 
 def _hash_fns():
@@ -285,7 +298,14 @@ class Builtins:
 
     def f_dict(self, pos, kw, fr):
         if not pos:
+            if not kw:
+                d = SDict(z3.K(z3.IntSort(), z3.BoolVal(False)), None, fresh=True, label="newdict")
+                d.ghost["ident"] = EMPTY_DICT_ID
+                d.ghost["nonempty"] = z3.BoolVal(False)
+                return d
             return SDict(concrete=dict(kw), fresh=True)
+        if isinstance(pos[0], SDict) and not kw:
+            return self.dict_method("copy", pos[0], [], {})
         raise Unsupported("dict(x)")
 
     def f_set(self, pos, kw, fr):
@@ -432,8 +452,10 @@ class Builtins:
         if kind == "int":
             S = cx.func("Sum", z3.IntSort(), z3.IntSort())
             j = z3.Int(cx._name("j"))
+            # S is specified by S(0) = 0 and S(k+1) = S(k) + fn(k); only the instances asked for by the contract
+            # (lemma instances, unfoldings) are given to the solver -- the quantified recursion would make
+            # E-matching loop on S(j+1)
             cx.assume(S(0) == 0)
-            cx.assume(z3.ForAll([j], z3.Implies(j >= 0, S(j + 1) == S(j) + fn(j)), patterns=[S(j + 1)]))
             res = SInt(S(to_term_int(n)))
             cx.ghost.setdefault("sums", []).append({"S": S, "fn": fn, "n": to_term_int(n), "src": src, "res": res})
             return res
@@ -635,7 +657,7 @@ class Builtins:
                 if isinstance(x, (str, int, bytes, tuple, SEnumMember)) and not container.store:
                     return x in container.concrete
                 raise Unsupported("symbolic key in a concrete dict")
-            return SBool(z3.Select(container.keys, to_term_int(x)))
+            return SBool(z3.Select(container.keys, self.ident_term(x)))
         c = self.it.iter_concrete(container)
         if c is not None:
             acc = []
@@ -678,9 +700,9 @@ class Builtins:
                 if key in obj.concrete:
                     return obj.concrete[key]
                 raise PyRaise(SExc("KeyError"))
-            kt = to_term_int(key)
+            kt = self.ident_term(key)
             for k2, v in obj.store:
-                if self.cx.branch(kt == to_term_int(k2), "dict-key-eq"):
+                if self.cx.branch(kt == self.ident_term(k2), "dict-key-eq"):
                     return v
             if not self.cx.branch(z3.Select(obj.keys, kt), "dict-has-key"):
                 raise PyRaise(SExc("KeyError"))
@@ -728,9 +750,12 @@ class Builtins:
                     obj.concrete[key] = v
                     return
                 raise Unsupported("symbolic key stored into a concrete dict")
-            kt = to_term_int(key)
+            kt = self.ident_term(key)
             obj.store.insert(0, (key, v))
             obj.keys = z3.Store(obj.keys, kt, z3.BoolVal(True))
+            if "ident" in obj.ghost:
+                obj.ghost["ident"] = dput(obj.ghost["ident"], kt, self.ident_term(v))
+                obj.ghost["nonempty"] = z3.BoolVal(True)
             return
         if isinstance(obj, SList) and obj.concrete and isinstance(key, int):
             self.cx.log_write(obj, "@items", (key, v))
